@@ -220,6 +220,42 @@ pub fn run() {
                 cur = Some(Journaled { dir, journal, child: c, stdin, out });
                 if ok { "ok".to_string() } else { "dead".to_string() }
             }
+            ["reenum", path, rest @ ..] => {
+                let probe: u64 = rest.iter().find_map(|w| w.strip_prefix("probe=")).and_then(|v| v.parse().ok()).unwrap_or(0);
+                let geom = rest.iter().find_map(|w| w.strip_prefix("geom=")).map(|s| s.to_string());
+                let only: Option<usize> = rest.iter().find_map(|w| w.strip_prefix("k=")).and_then(|v| v.parse().ok());
+                let lines: Vec<String> = std::fs::read_to_string(path).unwrap_or_default().lines().map(|s| s.to_string()).collect();
+                let mut blob = match std::fs::File::open(format!("{}.blob", path)) {
+                    Ok(f) => f,
+                    Err(_) => return "enum n=0 nojournal".to_string(),
+                };
+                let mut parts = vec![];
+                for k in 0..=lines.len() {
+                    if let Some(o) = only {
+                        if o != k {
+                            continue;
+                        }
+                    }
+                    let img = work.path().join("img");
+                    apply_prefix(&lines, &mut blob, k, &img, "");
+                    if only.is_some() {
+                        let keep = format!("/tmp/crashimg_{}", k);
+                        let _ = std::process::Command::new("rm").arg("-rf").arg(&keep).status();
+                        let _ = std::process::Command::new("cp").arg("-r").arg(&img).arg(&keep).status();
+                    }
+                    let mut cmd = Command::new(std::env::current_exe().unwrap());
+                    cmd.arg("crashprobe").arg(&img).arg(probe.to_string());
+                    if let Some(g) = &geom {
+                        cmd.env("RNACOS_VERIF_LOG_GEOMETRY", g);
+                    }
+                    let res = match cmd.stderr(Stdio::null()).output() {
+                        Ok(o) => String::from_utf8_lossy(&o.stdout).trim().to_string(),
+                        Err(_) => "open=spawnerr".to_string(),
+                    };
+                    parts.push(format!("k={} {} {}", k, if k > 0 { lines[k - 1].clone().replace(' ', "_") } else { "-".to_string() }, res));
+                }
+                format!("enum n={} | {}", lines.len() + 1, parts.join(" | "))
+            }
             ["enumerate", rest @ ..] => {
                 let probe: u64 = rest.iter().find_map(|w| w.strip_prefix("probe=")).and_then(|v| v.parse().ok()).unwrap_or(0);
                 let geom = rest.iter().find_map(|w| w.strip_prefix("geom=")).map(|s| s.to_string());
@@ -280,6 +316,16 @@ pub fn run() {
                     }
                 }
                 let _ = std::fs::remove_dir_all(&j.dir);
+                // a journal on which some prefix does not recover is kept for deterministic re-enumeration
+                let bad = parts.iter().any(|p| !p.contains("open=ok") || p.contains("probe=bad"));
+                if bad || std::env::var("VERIF_KEEP_JOURNAL").is_ok() {
+                    let keep = std::path::PathBuf::from(std::env::var("VERIF_WORK").unwrap_or("/verif/work".to_string())).join("journals");
+                    let _ = std::fs::create_dir_all(&keep);
+                    let name = format!("j{}_{}", std::process::id(), serial);
+                    let _ = std::fs::copy(&j.journal, keep.join(format!("{}.journal", name)));
+                    let _ = std::fs::copy(format!("{}.blob", j.journal.to_string_lossy()), keep.join(format!("{}.journal.blob", name)));
+                    parts.push(format!("saved={}", keep.join(format!("{}.journal", name)).to_string_lossy()));
+                }
                 format!("enum n={} | {}", lines.len() + 1, parts.join(" | "))
             }
             _ => match &mut cur {
